@@ -128,13 +128,15 @@ def _set(case, path, val):
     cur[path[-1]] = val
 
 
-def minimise(mod, case, vclass, max_runs=400):
-    """Shrink `case` while check_case still reports `vclass`. Returns (case, runs used)."""
+def minimise(mod, case, vclass, max_runs=400, max_wall=None):
+    """Shrink `case` while check_case still reports `vclass`. Returns (case, runs used).  Bounded by a number of
+    re-executions and by wall time (a history-driven case re-runs every prefix, so one re-execution can be slow)."""
     import copy
     runs = [0]
+    t_end = _real_time() + (max_wall or float(os.environ.get('VERIF_MINIMISE_WALL', '150')))
 
     def still(c):
-        if runs[0] >= max_runs:
+        if runs[0] >= max_runs or _real_time() > t_end:
             return False
         runs[0] += 1
         try:
@@ -147,7 +149,7 @@ def minimise(mod, case, vclass, max_runs=400):
     for path in mod.shrink_paths(best):
         lst = list(_get(best, path))
         n = 2
-        while len(lst) >= 1 and runs[0] < max_runs:
+        while len(lst) >= 1 and runs[0] < max_runs and _real_time() < t_end:
             chunk = max(1, len(lst) // n)
             reduced = False
             for i in range(0, len(lst), chunk):
